@@ -82,7 +82,7 @@ def run(rep, tier):
     N = 6 if tier == "quick" else 9
     identifier_law(rep, N)
     fns = ["check_config_violations", "check_config_violations_custom_ops", "check_config_violations_sync_plain", "check_config_violations_otel_pruned",
-           "check_config_violations_plugin", "check_config_violations_custom_ops_sync", "check_invalid_operations", "check_invalid_schemas", "check_valid_configs", "check_valid_configs_legacy_section", "check_schema_strategy_target", "twin_invalid_operation_rejected"]
+           "check_config_violations_plugin", "check_config_violations_custom_ops_sync", "check_invalid_operations", "check_invalid_schemas", "check_valid_configs", "check_valid_configs_legacy_section", "check_schema_strategy_target", "check_schema_strategy_names", "twin_invalid_operation_rejected"]
     res = xh.run_targets([f"{MOD}.{f}" for f in fns], timeout=600 if tier == "quick" else 1800)
     xh.fold(rep, MOD, res)
     from harness import C17_invalid as H
